@@ -593,3 +593,8 @@ func (p *Program) ControlDeps(b *ssa.BasicBlock) []*ssa.If {
 	walk(b)
 	return out
 }
+
+// PostDom reports whether block b post-dominates block a.
+func (pd *PostDom) PostDom(a, b *ssa.BasicBlock) bool {
+	return pd.sets[a.Index][b.Index]
+}
